@@ -134,6 +134,17 @@ def families(thorough):
         for cut in (1, 5):
             s.append(Case(['select'] * n + ['select'], cut=cut, sym_status=True))
     F['status'] = s
+    # -- tracked session parameters follow the client across server connections
+    s = []
+    starts = [{'application_name': 'app_a'}, {'TimeZone': 'Europe/Paris', 'application_name': "it's"}, {}]
+    progs = [['select'], ['select', 'select2'], ["q:SET TimeZone TO 'Asia/Tokyo'", 'select', 'select2'], ['begin', "q:SET DateStyle TO 'German'", 'commit', 'select'],
+             ["q:SET application_name TO 'o''hara'", 'select'], ['P', 'B', 'E', 'S', "q:SET client_encoding TO 'LATIN1'", 'P', 'B', 'E', 'S'], ['begin', 'select', 'commit', 'select2'],
+             ["q:SET statement_timeout TO 5", 'select']]
+    for st in starts:
+        for t in progs:
+            s.append(Case(t, stop='X', params=st))
+            s.append(Case(t, stop='X', params=st, roles=(1, 1)))
+    F['params'] = s
     # -- COPY IN with chunk sizes on both sides of the 8196-byte forwarding threshold
     s = []
     sizes = ['d', 'dbig:8185', 'dbig:8192', 'dbig:9000'] + (['dbig:4000', 'dbig:20000'] if thorough else [])
@@ -186,6 +197,7 @@ DESCR = {
     'pause': 'PAUSE arriving before the session or while the client is idle before its k-th message, with and without a later RESUME',
     'plugins': 'query parser on, the plugin verdict (allow / deny / intercept) of every parsed statement SYMBOLIC',
     'status': 'statements after each of which the backend reports a SYMBOLIC transaction status (any status PostgreSQL can reach from the previous one)',
+    'params': 'sessions of a client whose startup values of tracked parameters differ from the servers\' (incl. a value with a quote), SETs of tracked and untracked parameters outside and inside BEGIN, on one server and on two (either may serve each transaction)',
     'copy': 'COPY IN sessions whose CopyData chunks have sizes on both sides of the 8196-byte forwarding threshold (1-3 chunks, CopyDone or CopyFail, then another query)',
     'commands': 'sessions that use the pooler commands (SET SHARD / SET SHARDING KEY with SYMBOLIC decimal digits, SHOW SHARD, SET SERVER ROLE, SET PRIMARY READS) on a pool of two shards or of a primary and a replica, outside and inside BEGIN',
     'two-backends': 'a pool of two servers (replica+replica, primary+replica): either may be handed out at each checkout',
@@ -214,7 +226,7 @@ def handle_obligations(chk, prog, props, fams):
     tasks = []
     for fam in fams:
         cases = F[fam]
-        n = max(1, min(12, len(cases) // (4 if fam in ('status', 'plugins', 'malformed', 'commands', 'cache') else 40)))
+        n = max(1, min(12, len(cases) // (4 if fam in ('status', 'plugins', 'malformed', 'commands', 'cache', 'params') else 40)))
         for i in range(n):
             tasks.append((prog, fam, i, n, cases[i::n], set(props)))
     chk.parallel(_run_chunk, tasks)
